@@ -767,15 +767,7 @@ func runCA(line, hist string) core.Outcome {
 		blobs: map[[32]byte]decoded{}, chains: map[[32]byte]string{}}
 	var o core.Outcome
 	var toks []tok
-	// a renewal whose certificate write reported an error AFTER taking effect, in a process that
-	// kept running (the error is only logged): from then on that process's memory and the storage
-	// disagree, and its next maintenance pass is the known defect recorded in known_findings.jsonl
-	unsynced := false
 	fail := func(class, what string) {
-		if unsynced && (class == "ca-inconsistent-chain-after-startup" || class == "ca-store-incomplete-after-startup" ||
-			class == "ca-intermediate-changed-without-renewal") {
-			class = "ca-unsynced-runtime-renewal-after-reported-failed-cert-write"
-		}
 		o.Failures = append(o.Failures, core.Failure{Case: line, Class: class, What: what})
 	}
 	tags := map[string]bool{}
@@ -813,10 +805,13 @@ func runCA(line, hist string) core.Outcome {
 		// state before, for the stability clauses
 		icBefore, icPresent := theStore.get(caKeys[2].key)
 		ikBefore, _ := theStore.get(caKeys[3].key)
-		interDue := true
+		interDue, interOwnKey := true, false
 		if icPresent {
 			if c, err := decodeCert(icBefore); err == nil {
 				interDue = needsRenewal(c)
+				if k, err := certmagic.PEMDecodePrivateKey(ikBefore); err == nil {
+					interOwnKey = samePub(k.Public(), c.PublicKey)
+				}
 			}
 		}
 		var r startResult
@@ -866,7 +861,7 @@ func runCA(line, hist string) core.Outcome {
 				tags["maintenance-pass-interrupted:"+ev.mode] = true
 			}
 			if ev.mode == "fa" && r.kind == "ok" && log[ev.idx-1].kind == "S" && shortKey(log[ev.idx-1].key) == "ic" {
-				unsynced = true
+				// the error is only logged: from now on this process's memory and the storage disagree
 				tags["swallowed-cert-write-error-after-effect"] = true
 			}
 		}
@@ -981,7 +976,11 @@ func runCA(line, hist string) core.Outcome {
 		} else if r.kind == "ok" {
 			rootFixed, stableRC, stableRK = true, rcNow, rkNow
 		}
-		if icPresent && !interDue {
+		// "the intermediate is reloaded unchanged until it is renewed": a stored certificate outside
+		// its renewal window WITH ITS OWN KEY next to it survives every start-up, interrupted or not
+		// (a foreign key — left by an interrupted renewal — makes the next start-up replace the pair;
+		// a running process renews by what it holds in memory)
+		if icPresent && !interDue && interOwnKey && !ev.tick {
 			if !icNowOK || !bytes.Equal(icNow, icBefore) || !bytes.Equal(ikNow, ikBefore) {
 				fail("ca-intermediate-changed-without-renewal",
 					fmt.Sprintf("start-up %d of %q changed a stored intermediate that is not inside its renewal window", i+1, hist))
